@@ -1188,13 +1188,18 @@ class LuaASTEchoWriter(BaseLuaWriter):
                             node, self._tokens[self._pos].code)
                     for t in self._walk(node.fields[i]):
                         yield t
-        # Process a trailing fieldsep, if any.
-        self._indent -= 1
-        yield self._get_code_for_spaces(node)
+        # Process a trailing fieldsep, if any. (It belongs to the fields, so
+        # it is written before leaving the indentation level of the table.)
         if not self._args.get('ignore_tokens'):
-            if (self._tokens[self._pos].matches(lexer.TokSymbol(b',')) or
-                    self._tokens[self._pos].matches(lexer.TokSymbol(b';'))):
-                yield self._get_text(node, self._tokens[self._pos].code)
+            next_pos = self._pos
+            while isinstance(self._tokens[next_pos],
+                             (lexer.TokSpace, lexer.TokNewline,
+                              lexer.TokComment)):
+                next_pos += 1
+            if (self._tokens[next_pos].matches(lexer.TokSymbol(b',')) or
+                    self._tokens[next_pos].matches(lexer.TokSymbol(b';'))):
+                yield self._get_text(node, self._tokens[next_pos].code)
+        self._indent -= 1
         yield self._get_text(node, b'}')
 
     def _walk_FieldExpKey(self, node):
